@@ -63,6 +63,9 @@ fn contexts(call: &str, j1: &str, j2: &str) -> Vec<(&'static str, Vec<String>, S
         ("iife-shadowing-inputs", vec![], format!("((inputs, f1) => {})({}, {})", c, j1, j2), 0),
         ("iife-shadowing-helpers", vec![], format!("((g, mk, loc, a) => {})({}, {}, {}, {})", c, j1, j2, j1, j2), 0),
         ("iife-param-named-f", vec![], format!("((x, y) => {})({}, {})", c, j1, j2), 0),
+        // the caller's parameters / locals carry the names the callee binds inside its own body
+        ("iife-shadowing-body-locals", vec![], format!("((tq, rq, cq) => {})({}, {}, {})", c, j1, j2, j1), 0),
+        ("do-block-shadowing-body-locals", vec![], format!("do {{\n  tq = {}\n  rq = {}\n  cq = {}\n  return {}\n}}", j1, j2, j1, c), 0),
         ("do-block-shadowing", vec![], format!("do {{\n  k = {}\n  m = {}\n  g = {}\n  return {}\n}}", j1, j2, j1, c), 0),
         ("via-callback", vec![], format!("[{}] via (k => {})", j1, c), 1),
         ("via-callback-index", vec![], format!("[{}] via ((m, k) => {})", j1, c), 1),
@@ -281,7 +284,7 @@ fn site_case(tape: &[u16], j1: MV, j2: MV) -> Case {
             sc.fns.push("m".into());
         }
     }
-    let form = t.pick(27);
+    let form = t.pick(28);
     let mut expect: Option<String> = None;
     let mut body_scope = sc.clone();
     let mut call = "f(3)".to_string();
@@ -423,6 +426,12 @@ fn site_case(tape: &[u16], j1: MV, j2: MV) -> Case {
         26 => {
             defs.push(["f = x => do {\n  return rq = x * k\n}", "f = x => (y => (rq = y * k))(x)", "f = x => if typeof([cq = k]) == \"list\" then x * cq else 0"][t.pick(3)].into());
             expect = Some("3 * k".into());
+        }
+        27 => {
+            // a function that binds a name in its own body and calls itself: every activation has its own
+            let v = t.pick(2);
+            defs.push(["f = n => if n == 0 then k else (tq = n) + f(n - 1) + tq * 0", "f = n => if n == 0 then k else [tq = n, f(n - 1)][1] + tq"][v].into());
+            expect = Some(["((3 + ((2 + ((1 + k) + 0)) + 0)) + 0)", "k + 1 + 2 + 3"][v].into());
         }
         24 => {
             // ... and one nested inside a captured list / record
